@@ -298,6 +298,7 @@ def run_history(hist, want_state=True):
     diverged = False
     memo_culprit = None
     memo_culprit_idx = 0
+    unit_seq = []  # one entry per Unit(q, registry=r) call of the history / probe set: (q, object or None)
 
     def note(u):
         if id(u) not in seen_obj:
@@ -319,7 +320,10 @@ def run_history(hist, want_state=True):
                 out = ("done",)
         except Exception as e:  # noqa: BLE001
             out = ("err", core.exc_name(e))
+            res = None
         outs.append(out)
+        if name in UNIT_OPS:
+            unit_seq.append((UNIT_OPS[name], res if hasattr(res, "is_Unit") else None))
         # (classification only) did the id memo survive an edit that ran a registry method?
         fam = family(name)
         if fam in ("add", "modify", "modify-quantity", "remove") or (fam == "define_unit" and out[0] == "done"):
@@ -385,6 +389,8 @@ def run_history(hist, want_state=True):
         want, _ = do_probe(F, kind, q) if kind != "sysid" else (("ok", table_id(F.lut)), None)
         oid = note(obj) if obj is not None else None
         probes.append((kind, q, got, oid))
+        if kind == "unit":
+            unit_seq.append((q, obj))
         if kind == "sysid":
             if got != want:
                 user_part = table_id({k: v for k, v in r.lut.items() if k in F.lut})
@@ -431,6 +437,20 @@ def run_history(hist, want_state=True):
                        + f"def ap(r):\n    try:\n        x = {src}\n        return (float(x.value), str(x.units.dimensions), float(x.units.base_value))\n"
                          "    except Exception as e: return type(e).__name__\n"
                          "a = ap(r); b = ap(F)\nassert close(a, b), (a, b)\n"))
+    # ---- objects that outlived an edit, used together with later objects of the same spelling
+    pairs = []
+    by_q = {}
+    for ordinal, (q, obj) in enumerate(unit_seq):
+        if obj is None:
+            continue
+        lst = by_q.setdefault(q, [])
+        if all(obj is not o for _i, o in lst):
+            lst.append((ordinal, obj))
+    for q in sorted(by_q):
+        lst = by_q[q]
+        for (ia, old), (ib, new) in zip(lst, lst[1:]):
+            if len(pairs) < 4 and old.base_offset == 0 and new.base_offset == 0:
+                pairs.append(mixed_use(old, new, q, r, hist, ia, ib, failures))
     # ---- old units keep their value
     for u, snap in objects:
         now = (float(u.base_value), dims_key(u.dimensions), float(u.base_offset), str(u.expr))
@@ -442,7 +462,103 @@ def run_history(hist, want_state=True):
                 py=HEADER + "r = UnitRegistry()\nheld = []\n" + "".join(
                     f"x = t(lambda: {OPS[n]['py']})\nif hasattr(x, 'is_Unit') and all(x is not h[0] for h in held): held.append((x, (x.base_value, x.dimensions, x.base_offset)))\n"
                     for n in hist) + probes_all_src() + "for u, s in held:\n    assert (u.base_value, u.dimensions, u.base_offset) == s, (u, s)\n"))
-    return dict(outs=outs, probes=probes, failures=failures, state=state, user=dict(cont.user))
+    return dict(outs=outs, probes=probes, failures=failures, state=state, user=dict(cont.user), pairs=pairs)
+
+
+UNIT_OPS = {"u_foo": SYM, "u_kfoo": "k" + SYM, "u_foo_s": SYM + "*s"}
+MIX_X, MIX_Y = 4.0, 6.0
+
+
+def _try(f):
+    try:
+        return ("ok", f())
+    except Exception as e:  # noqa: BLE001
+        return ("err", core.exc_name(e))
+
+
+def mixed_src(hist, ia, ib):
+    """source that re-executes the history and the probe set, keeping the result of every Unit(q, registry=r)
+    call in H, and binds old = H[ia], new = H[ib]"""
+    lines = ["r = UnitRegistry(); H = []",
+             "def U(q):\n    try: u = Unit(q, registry=r)\n    except Exception: u = None\n    H.append(u); return u"]
+    for n in hist:
+        lines.append(f"U({UNIT_OPS[n]!r})" if n in UNIT_OPS else f"t(lambda: {OPS[n]['py']})")
+    for k, q in PROBES:
+        lines.append(f"U({q!r})" if k == "unit" else f"t(lambda: {probe_src(k, q, 'r')})")
+    lines.append(f"old, new = H[{ia}], H[{ib}]\nassert old is not new and old.expr == new.expr")
+    lines.append(f"a = unyt_quantity({MIX_X!r}, old); b = unyt_quantity({MIX_Y!r}, new)")
+    return "\n".join(lines) + "\n"
+
+
+def mixed_use(old, new, q, r, hist, ia, ib, failures):
+    """Direct oracle: what two Unit objects of the same spelling — one from before an edit, one from after — do
+    to each other is decided by the values the two objects carry.  Returns the observed outcomes for the
+    correspondence with the model's heap."""
+    from unyt import unyt_quantity
+
+    same_dim = old.dimensions == new.dimensions
+    so, sn = float(old.base_value), float(new.base_value)
+    a, b = unyt_quantity(MIX_X, old), unyt_quantity(MIX_Y, new)
+    src = HEADER + mixed_src(hist, ia, ib)
+
+    def bad(op, what, assertion):
+        failures.append(dict(key=f"C12|old-unit-reinterpreted|{op}|{'same' if same_dim else 'changed'}-dimensions",
+                             what=f"after {hist}: pre-edit {q!r} (scale {so}, {old.dimensions}) with post-edit {q!r} (scale {sn}, "
+                                  f"{new.dimensions}): {what}",
+                             py=src + assertion))
+
+    conv_ab = _try(lambda: old.get_conversion_factor(new))
+    conv_ba = _try(lambda: new.get_conversion_factor(old))
+    to_ab = _try(lambda: float(a.to(new).value))
+    add_ab = _try(lambda: float((a + b).value))
+    lt_ab = _try(lambda: bool(a < b))
+    eq_ab = _try(lambda: bool(a == b))
+    comp = _try(lambda: (a / unyt_quantity(2.0, "s", registry=r)))
+    if same_dim:
+        f = so / sn
+        if not (conv_ab[0] == "ok" and core.close(conv_ab[1][0], f, 1e-12) and conv_ab[1][1] is None):
+            bad("conversion-factor", f"old.get_conversion_factor(new) is {conv_ab}, the stored scales give {f}",
+                "f = old.get_conversion_factor(new)\nassert abs(f[0] - old.base_value/new.base_value) <= 1e-12*abs(f[0]) and f[1] is None, f\n")
+        if not (to_ab[0] == "ok" and core.close(to_ab[1], MIX_X * f, 1e-12)):
+            bad("to", f"({MIX_X} old).to(new) is {to_ab}, required {MIX_X * f}",
+                f"v = float(a.to(new).value)\nassert abs(v - {MIX_X!r}*old.base_value/new.base_value) <= 1e-12*abs(v), v\n")
+        want_add = MIX_X + MIX_Y * sn / so
+        if not (add_ab[0] == "ok" and core.close(add_ab[1], want_add, 1e-12)):
+            bad("add", f"({MIX_X} old) + ({MIX_Y} new) is {add_ab} old, required {want_add}",
+                f"v = float((a + b).value)\nassert abs(v - ({MIX_X!r} + {MIX_Y!r}*new.base_value/old.base_value)) <= 1e-12*abs(v), v\n")
+        si_a, si_b = MIX_X * so, MIX_Y * sn
+        if not core.close(si_a, si_b, 1e-6):
+            if lt_ab != ("ok", si_a < si_b) or eq_ab != ("ok", False):
+                bad("compare", f"({MIX_X} old) < ({MIX_Y} new) is {lt_ab}, == is {eq_ab}; in SI {si_a} vs {si_b}",
+                    f"assert bool(a < b) == ({MIX_X!r}*old.base_value < {MIX_Y!r}*new.base_value) and not bool(a == b), (a < b, a == b)\n")
+    else:
+        for op, got in (("conversion-factor", conv_ab), ("to", to_ab), ("add", add_ab), ("compare", lt_ab)):
+            if got[0] != "err":
+                bad(op, f"the stored dimensions differ but {op} returned {got[1]!r} instead of raising",
+                    {"conversion-factor": "x = t(lambda: old.get_conversion_factor(new))", "to": "x = t(lambda: a.to(new))",
+                     "add": "x = t(lambda: a + b)", "compare": "x = t(lambda: a < b)"}[op]
+                    + "\nassert x in ('UnitConversionError', 'UnitOperationError'), x\n")
+        if eq_ab == ("ok", True):
+            bad("compare", "the stored dimensions differ but == is True", "assert not bool(a == b)\n")
+    # a pre-edit compound built by arithmetic, converted to the compound string of today
+    if comp[0] == "ok":
+        c = comp[1]
+        tgt = _try(lambda: __import__("unyt").Unit(q + "/s", registry=r))
+        if tgt[0] == "ok":
+            T = tgt[1]
+            got = _try(lambda: float(c.to(T).value))
+            if c.units.dimensions == T.dimensions:
+                want = float(c.value) * float(c.units.base_value) / float(T.base_value)
+                if not (got[0] == "ok" and core.close(got[1], want, 1e-12)):
+                    bad("compound-to", f"(old/s built by arithmetic).to({q + '/s'!r}) is {got}, the stored scales give {want}",
+                        f"c = a / unyt_quantity(2.0, 's', registry=r); T = Unit({q + '/s'!r}, registry=r)\nv = float(c.to(T).value)\n"
+                        "assert abs(v - float(c.value)*c.units.base_value/T.base_value) <= 1e-12*abs(v), v\n")
+            elif got[0] != "err":
+                bad("compound-to", f"(old/s).to({q + '/s'!r}) returned {got[1]} although the dimensions differ",
+                    f"c = a / unyt_quantity(2.0, 's', registry=r)\nx = t(lambda: c.to(Unit({q + '/s'!r}, registry=r)))\n"
+                    "assert x in ('UnitConversionError', 'UnitOperationError'), x\n")
+    canon = lambda g: ("ok", float(g[1][0]), g[1][1]) if g[0] == "ok" else g  # noqa: E731
+    return dict(ia=ia, ib=ib, conv_ab=canon(conv_ab), conv_ba=canon(conv_ba), to_ab=to_ab, add_ab=add_ab)
 
 
 ARRAY_PROBES = [
@@ -528,6 +644,14 @@ def parse_table_lines():
                 raise ValueError(f"probe string {q!r} parses outside the modelled shapes: {e!r}")
         lines.append(f"c12.parse\t{q}\tprod\t{core.f2b(coeff)}\t{';'.join(fac)}")
     return lines
+
+
+def pair_lines(pairs):
+    out = []
+    for p in pairs:
+        out += [f"c12.conv\t{p['ia']}\t{p['ib']}", f"c12.conv\t{p['ib']}\t{p['ia']}",
+                f"c12.to\t{p['ia']}\t{p['ib']}\t{core.f2b(MIX_X)}", f"c12.addq\t{p['ia']}\t{p['ib']}\t{core.f2b(MIX_X)}\t{core.f2b(MIX_Y)}"]
+    return out
 
 
 def model_lines(hist):
@@ -636,6 +760,19 @@ def correspond(hist, res, replies):
             check_unit_identity(oid, rep[2], f"probe {q!r}")
         elif real[0] == "sysid":
             sysids.append((real[1], rep[2]))
+    # objects that outlived an edit: the model's heap cells convert / add like the real objects
+    for p in res.get("pairs") or []:
+        for field in ("conv_ab", "conv_ba", "to_ab", "add_ab"):
+            rep = next(it)
+            real = p[field]
+            if real[0] == "err":
+                ok = rep[0] == "err" and rep[1] == real[1]
+            elif field.startswith("conv"):
+                ok = rep[0] == "ok" and core.close(core.b2f(rep[1]), real[1], 1e-12) and (rep[2] == "none") == (real[2] is None)
+            else:
+                ok = rep[0] == "ok" and core.close(core.b2f(rep[1]), real[1], 1e-12)
+            if not ok:
+                dis.append(f"old/new objects #{p['ia']},#{p['ib']} {field}: impl {real} model {rep}")
     # unit_system_id: equal ids <-> equal snapshots
     for (a1, b1), (a2, b2) in itertools.combinations(sysids, 2):
         if (a1 == a2) != (b1 == b2):
@@ -654,8 +791,11 @@ def _work(args):
     results = []
     lines = list(ptab)
     spans = []
+    ress = []
     for h in hists:
-        ml = model_lines(h)
+        res = run_history(h, want_state)
+        ress.append(res)
+        ml = model_lines(h) + pair_lines(res.get("pairs") or [])
         spans.append((len(lines), len(lines) + len(ml)))
         lines += ml
     try:
@@ -664,8 +804,7 @@ def _work(args):
     except Exception as e:  # noqa: BLE001
         replies, merr = None, repr(e)
     out = []
-    for h, (a, b) in zip(hists, spans):
-        res = run_history(h, want_state)
+    for h, res, (a, b) in zip(hists, ress, spans):
         if replies is None:
             dis, safe, safe_id = [f"driver: {merr}"], False, False
         else:
@@ -673,7 +812,7 @@ def _work(args):
                 dis, safe, safe_id = correspond(h, res, replies[a:b])
             except Exception as e:  # noqa: BLE001
                 dis, safe, safe_id = [f"correspondence crashed: {e!r}"], False, False
-        out.append((h, res["failures"], dis, safe, safe_id))
+        out.append((h, res["failures"], dis, safe, safe_id, len(res.get("pairs") or [])))
     return out
 
 
@@ -728,30 +867,34 @@ def alias_check(chk):
                                          "assert u.base_value == 7.0 and u.dimensions == D.length/D.time**3, (u.base_value, u.dimensions)\n"})
 
 
-def witness_replays(chk, cfg_repaired):
-    """the witnesses of the `C12_counterexample_*` theorems, replayed on the real library: on the
-    present code each must fail (else the model claims a defect the code does not have)"""
-    W = [("modify_prefixed", ["add_foo1", "u_kfoo", "modf_foo"], ("unit", "k" + SYM)),
-         ("remove_prefixed", ["add_foo1", "u_kfoo", "rm_foo"], ("unit", "k" + SYM)),
-         ("modify_compound", ["add_foo1", "u_foo_s", "modf_foo"], ("unit", SYM + "*s")),
-         ("readd_atomic", ["add_foo1", "u_foo", "add_foo2"], ("unit", SYM)),
-         ("id_lookup_history", ["add_foo1", "u_kfoo"], ("sysid", "")),
-         ("id_stale_after_modify_quantity", ["add_foo1", "modq_foo"], ("sysid", ""))]
-    for name, hist, (kind, q) in W:
+def witness_replays(chk, cfg):
+    """the witnesses of the `C12_counterexample_*` theorems (statements about the machine configured as the code
+    was before the fix: commits), replayed on the real library: a witness must fail exactly when the regenerated
+    configuration still has the layer it exposes (else the model and the code disagree about that layer)"""
+    both = cfg["clearCache"] and cfg["purgeDerived"]
+    W = [("modify_prefixed", ["add_foo1", "u_kfoo", "modf_foo"], "unit", not both),
+         ("remove_prefixed", ["add_foo1", "u_kfoo", "rm_foo"], "unit", not both),
+         ("modify_compound", ["add_foo1", "u_foo_s", "modf_foo"], "unit", not cfg["clearCache"]),
+         ("readd_atomic", ["add_foo1", "u_foo", "add_foo2"], "unit", not cfg["clearCache"]),
+         ("edit_of_derived_key", ["add_foo1", "u_kfoo", "modf_kfoo"], "edit", not cfg["purgeDerived"]),
+         ("id_lookup_history", ["add_foo1", "u_kfoo"], "sysid", not cfg["idSkipsDerived"]),
+         ("id_stale_after_modify_quantity", ["add_foo1", "modq_foo"], "memo", not cfg["memoResetLast"])]
+    for name, hist, kind, expect_fail in W:
         chk.case(("witness", name))
         chk.count("counterexample-witness")
         res = run_history(hist, want_state=False)
-        hit = [f for f in res["failures"] if ("unit_system_id" in f["key"]) == (kind == "sysid")]
-        if cfg_repaired and hit:
-            chk.disagree("witness", f"the live configuration is the repaired one but the witness {name} still fails: {hit[0]['what']}")
-        if not cfg_repaired and not hit:
-            chk.disagree("witness", f"C12_counterexample_{name}: the real library does not show the defect the theorem exhibits")
-    # the derived-key edit
-    res = run_history(["add_foo1", "u_kfoo", "modf_kfoo"], want_state=False)
-    hit = [f for f in res["failures"] if "edit-outcome" in f["key"]]
-    chk.case(("witness", "edit_of_derived_key"))
-    if (not cfg_repaired) and not hit:
-        chk.disagree("witness", "C12_counterexample_edit_of_derived_key: not reproduced on the real library")
+        if kind == "unit":
+            hit = [f for f in res["failures"] if "|stale|" in f["key"] or "|lost|" in f["key"]]
+        elif kind == "edit":
+            hit = [f for f in res["failures"] if "edit-outcome" in f["key"]]
+        elif kind == "memo":
+            hit = [f for f in res["failures"] if "memo-survives-edit" in f["key"]]
+        else:
+            hit = [f for f in res["failures"] if "unit_system_id" in f["key"]]
+        if expect_fail and not hit:
+            chk.disagree("witness", f"C12_counterexample_{name}: the regenerated configuration {cfg} has this defect, the real library does not show it")
+        if hit and not expect_fail:
+            chk.disagree("witness", f"C12_counterexample_{name}: the regenerated configuration {cfg} says the layer is invalidated, but the witness fails: {hit[0]['what']}")
 
 
 def run(tier, seed):
@@ -764,9 +907,10 @@ def run(tier, seed):
     except Exception as e:  # noqa: BLE001
         chk.disagree("translator", f"no configuration extracted: {e!r}")
         cfg = {"clearCache": False, "purgeDerived": False, "idSkipsDerived": False, "memoResetLast": False}
-    repaired = all(cfg.values())
     chk.extra["registry_cfg"] = cfg
-    chk.extra["active_theorem"] = "refines_fresh_repaired (full strength)" if repaired else "refines_fresh_partial + C12_counterexample_*"
+    chk.extra["active_theorem"] = ("C12_resolution_full (every call but unit_system_id, all histories)"
+                                   + ("; C12_full via refines_fresh_repaired" if all(cfg.values()) else
+                                      "; unit_system_id: refines_fresh_partial under the guard"))
     # the vocabulary must be free of built-in names
     ex = gen.extract()
     for s in (SYM, SYM2, "k" + SYM, "M" + SYM, "k" + SYM2):
@@ -816,7 +960,9 @@ def run(tier, seed):
     seen_keys = {}
     n_safe = n_safe_bad = 0
     for part in parts:
-        for h, failures, dis, safe, safe_id in part:
+        for h, failures, dis, safe, safe_id, npairs in part:
+            if npairs:
+                chk.count("old-object-with-new-object-pairs", npairs)
             chk.case(tuple(h), {"history": h, "safe_per_model_guard": safe} if len(chk.samples) < 6 and len(h) >= 3 else None)
             chk.count(f"history-length-{min(len(h), 5)}{'+' if len(h) >= 5 else ''}")
             chk.count("guard-safe" if safe else "guard-unsafe")
@@ -843,7 +989,7 @@ def run(tier, seed):
         chk.fail(key, f["what"], {"python": f["py"], "history": h})
     chk.extra["guard"] = {"histories_within_guard": n_safe, "of_which_oracle_failed": n_safe_bad}
     alias_check(chk)
-    witness_replays(chk, repaired)
+    witness_replays(chk, cfg)
     if os.environ.get("C12_DEBUG"):
         for d in chk.disagreements[:40]:
             print("DISAGREE", d[0], d[1][:600])
